@@ -156,7 +156,7 @@ h("C16", "c16", "c16_model_canonicalize_box_lattice_1d", "quick", 1500,
   f"ToroidalModel::canonicalize_point_in_place<f64>, D=1, {LAT}: Ok and {BOX}",
   ["topology::traits::global_topology_model::ToroidalModel::canonicalize_point_in_place",
    "topology::traits::global_topology_model::ToroidalModel::validate_configuration"])
-h("C16", "c16", "c16_wrap_coord_lattice_1d", "thorough", 3600,
+h("C16", "c16", "c16_wrap_coord_lattice_1d", "quick", 2400,
   f"ToroidalSpace::wrap_coord<f64>, D=1, {LAT}: {WRAP}", ["topology::spaces::toroidal::ToroidalSpace::wrap_coord"])
 h("C16", "c16", "c16_canonicalize_point_lattice_2d", "thorough", 3600,
   f"ToroidalSpace::canonicalize_point, D=2 (axis 0 symbolic, axis 1 fixed), {LAT}: {WRAP}",
@@ -304,9 +304,9 @@ h("C05", "c05", "c05_facet_key_injective_with_reuse", "quick", 900,
 h("C05", "c05", "c05_facet_key_injective_no_reuse_3keys", "thorough", 6000,
   "facet_key_from_vertices on 3-key facets (D=3), version 1, index < 2^10: distinct sorted tuples have distinct keys", FK)
 h("C05", "c05", "c05_facet_key_order_independent_2keys", "quick", 1800,
-  "facet_key_from_vertices: 2 keys, index < 2^16, version in {1,3}: swapping the keys gives the same key; empty slice => 0", FK)
+  "facet_key_from_vertices: 2 keys, index < 64, version in {1,3}: swapping the keys gives the same key; empty slice => 0", FK)
 h("C05", "c05", "c05_facet_key_order_independent_3keys", "thorough", 3600,
-  "facet_key_from_vertices: 3 keys, index < 16, version 1: every permutation gives the same key", FK)
+  "facet_key_from_vertices: 3 keys, index < 8, version 1: every permutation gives the same key", FK)
 h(["C15"], "c05", "c05_edge_key_canonical", "quick", 300,
   "EdgeKey::new over ALL pairs of 64-bit key patterns: symmetric, endpoints ordered, endpoints are the inputs", ["core::edge::EdgeKey::new"])
 PROP_ASSUMPTIONS["C05"] = [
